@@ -742,8 +742,8 @@ class EltoritoBootCatalog:
         self._initialized = True
 
     def add_section(self, ino, sector_count, load_seg, media_name, system_type,
-                    efi, bootable):
-        # type: (inode.Inode, int, int, str, int, bool, bool) -> None
+                    efi, bootable, platform_id=0):
+        # type: (inode.Inode, int, int, str, int, bool, bool, int) -> None
         """
         Add an section header and entry to this Boot Catalog.
 
@@ -755,6 +755,8 @@ class EltoritoBootCatalog:
          system_type - The type of partition this entry should be.
          efi - Whether this section is an EFI section.
          bootable - Whether this entry should be bootable.
+         platform_id - The platform ID for the section; 0 (the default) means
+                       the platform of the Validation Entry.
         Returns:
          Nothing.
         """
@@ -771,7 +773,8 @@ class EltoritoBootCatalog:
             raise pycdlibexception.PyCdlibInvalidInput('Too many El Torito sections')
 
         sec = EltoritoSectionHeader()
-        platform_id = self.validation_entry.platform_id
+        if platform_id == 0:
+            platform_id = self.validation_entry.platform_id
         if efi:
             platform_id = 0xef
         sec.new(b'\x00' * 28, platform_id)
